@@ -99,6 +99,22 @@ def run_task(ctx, spec, order=None, twice=False):
             d = _cmp(summarise(ev), summarise(ev2))
             if d:
                 ctx.violate("repeat_call_differs", f"repeat_call_differs:{spec['task']}", observed={"differs_at": d}, expected="same result on the second call", spec=spec)
+            # the caller owns a returned evaluation: it edits the second one in place (metric lists, matches, scores),
+            # then evaluates freshly built, equal inputs: same result as the first
+            want = summarise(ev)
+            from rv.core import scribble
+
+            acted = scribble.scribble(ev2.metrics) + scribble.scribble(ev2.clip_evaluations)
+            for ce in list(ev2.clip_evaluations)[:2]:
+                if hasattr(ce, "metrics"):
+                    acted += scribble.scribble(ce.metrics) + scribble.scribble(ce.matches)
+            if acted:
+                ctx.mon("repeat_after_result_edit")
+                cps3, cas3, tags3, _ = E.build(spec, order)
+                ev3 = _task(spec["task"])(cps3, cas3, tags3)
+                d = _cmp(want, summarise(ev3))
+                if d:
+                    ctx.violate("repeat_call_differs", f"repeat_call_differs:{spec['task']}:after_caller_edited_earlier_result", observed={"differs_at": d}, expected="same result for equal inputs", spec=spec)
     return ev, idx
 
 
